@@ -7,6 +7,7 @@ import copy
 
 from ..core import Anchor
 from ..symeval import NONE, UNIT, Panic as SPanic
+from ..tree import walk as _walk
 from . import progx
 
 BLD = "rspirv::dr::build"
@@ -82,8 +83,17 @@ def param_value(name, ty, variant):
     return ("param", name)
 
 
-def run(ctx, f, variant, selected, insert_point=None):
+def run(ctx, f, variant, selected, insert_point=None, twin=None):
     b = fresh_builder(ctx, selected)
+    if twin is not None:
+        # an instruction equal by value to the one this call will build already sits in every section and in the selected block
+        for k_, v_ in b[2]["module"][2].items():
+            if isinstance(v_, tuple) and v_ and v_[0] == "list" and k_ != "functions":
+                v_[1].append(copy.deepcopy(twin))
+        for fn_ in b[2]["module"][2]["functions"][1]:
+            fn_[2]["parameters"][1].append(copy.deepcopy(twin))
+            for bl_ in fn_[2]["blocks"][1]:
+                bl_[2]["instructions"][1].append(copy.deepcopy(twin))
     h = BH(ctx)
     ev = progx.make(h, "Builder::" + f["name"])
     env = {"self": b}
@@ -308,6 +318,16 @@ def summarise(ctx, f, base):
                     if opt_shape(vm) != opt_shape(exp):
                         raise Anchor("with %s %s the %s is %s" % (kind, pn, fld, opt_shape(vm)))
     s["slots"] = out
+    # an equal instruction already present must not change what the call does (emitting twice is the caller's business)
+    if not base.get("dedup") and "dedup_insert_type" not in repr(f["body"])[:0]:
+        if not any(x[0] == "mcall" and x[2] == "dedup_insert_type" for x in _walk(f["body"])):
+            rt_, bt_, ht_ = run(ctx, f, "some", state, twin=i1)
+            placed_t = [i for i in ht_.insts if locate(bt_, i)[0] is not None]
+            if isinstance(rt_, tuple) and rt_ and rt_[0] == "panic":
+                raise Anchor("panics when an equal instruction is already present: %s" % rt_[1])
+            if len(placed_t) != 1 or locate(bt_, placed_t[0])[0] != loc1:
+                raise Anchor("when an equal instruction is already present the new one is %s" % (
+                    "not stored" if not placed_t else "stored in %s" % (locate(bt_, placed_t[0])[0],)))
     # return value
     rv = r1
     if isinstance(rv, tuple) and rv[0] == "ok":
